@@ -176,6 +176,12 @@ def precedence_tables(run, F, models, tag="C04"):
             oka = arm_ is not None and [x[0] for x in arm_[1][0]] == ["next"] and arm_[1][1][0] == "ok"
             run.ob(oka, "leaf-primary|%s|%s" % (ev, s_), P + "C04-5 a constant / placeholder primary consumes exactly its own token and builds a leaf", where(m, "::parser::Parser::parse_number"),
                    "%r arm: effects %s" % (s_, [x[:2] for x in arm_[1][0]] if arm_ else None))
+        # 5c. the hook that runs after an operand only ever starts an implicit product (C12 decides which tokens start one): a hook that
+        # also swallows a superscript would bind x² tighter than a prefix sign
+        from .c12 import implicit_trigger
+        trg_ = implicit_trigger(m)
+        run.ob(trg_ is not None, "post-operand-hook|%s" % ev, P + "C04-5 the post-operand hook is `if <token starts a factor> { node * rhs } else { node }` and nothing else", where(m, "::parser::Parser::implicit_multiply"),
+               "UNRECOGNISED shape of implicit_multiply" if trg_ is None else "")
         # 6. brackets
         for opn, (cls, evs, wrap) in spec.BRACKETS.items():
             if ev not in evs:
